@@ -29,7 +29,7 @@ def bootstrap_app():
     if _APP:
         return _APP
     m = bootstrap()
-    from mchap.application import assemble, baseclass, call, call_exact
+    from mchap.application import assemble, baseclass, call, call_exact, call_pedigree
     from mchap.calling import prior as cprior
     from mchap.calling import exact as cexact
 
@@ -45,13 +45,13 @@ def bootstrap_app():
 
     cprior.lgamma = lgamma
     _APP.update(m)
-    _APP.update(app_assemble=assemble, app_call=call, app_call_exact=call_exact, app_baseclass=baseclass, cprior=cprior, cexact=cexact)
+    _APP.update(app_call_pedigree=call_pedigree, app_assemble=assemble, app_call=call, app_call_exact=call_exact, app_baseclass=baseclass, cprior=cprior, cexact=cexact)
     return _APP
 
 
 def run_program(name, argv):
     m = bootstrap_app()
-    mod = {"call": m["app_call"], "call-exact": m["app_call_exact"], "assemble": m["app_assemble"]}[name]
+    mod = {"call": m["app_call"], "call-exact": m["app_call_exact"], "assemble": m["app_assemble"], "call-pedigree": m["app_call_pedigree"]}[name]
     try:
         prog = mod.program.cli(["mchap", name] + [str(a) for a in argv])
     except SystemExit as e:
@@ -596,6 +596,11 @@ def shrink_candidates(cfg):
         mod(max_alts=cfg["max_alts"] - 1)
     if cfg.get("report_gp"):
         mod(report_gp=False)
+    if cfg.get("dummy_parent"):
+        mod(dummy_parent=False)
+    for k in ("tau_mode", "lambda_mode", "error_mode"):
+        if cfg.get(k, "default") != "default":
+            mod(**{k: "default"})
     return out
 
 
@@ -624,3 +629,212 @@ def check_assemble_target(ctx, rec):
                         % (mdl.steps, mdl.chains, mdl.random_seed, cfg["mcmc_steps"], cfg["mcmc_chains"], cfg["mcmc_seed"], where), step=0)
     ctx.counters.inc("cli_models_checked")
     ctx.key("cli-target", rec["ploidy"], tuple(want_n), round(rec["inbreeding"], 3), tuple(ladder))
+
+
+# ---------------------------------------------------------------- call-pedigree
+
+def gen_pedigree_config(rng, tier):
+    cfg = gen_call_config(rng, tier)
+    n = rng.choice([2, 3, 3, 4])
+    cfg.update({
+        "n_samples": n,
+        "inbreeding_mode": "none",  # call-pedigree has no --inbreeding
+        "ped_ploidy": rng.choice([2, 4, 4]),
+        "ped_seed": rng.randrange(1 << 30),
+        "dummy_parent": rng.random() < 0.3,
+        "tau_mode": rng.choice(["default", "default", "scalar", "file"]),
+        "lambda_mode": rng.choice(["default", "scalar0", "file"]),
+        "error_mode": rng.choice(["default", "scalar", "file"]),
+        "mcmc_steps": rng.choice([4, 6, 10]),
+        "mcmc_burn": rng.choice([0, 2]),
+        "mcmc_chains": rng.choice([1, 2]),
+    })
+    return cfg
+
+
+def _record_call_reads(m, argv):
+    """Runs `mchap call` briefly and returns {(locus, sample): (reads, counts)} as its sampler received them."""
+    np = m["np"]
+    call_mod = m["app_call"]
+    cur = {}
+    out = {}
+    real_mcmc = call_mod.CallingMCMC
+    real_csg = call_mod.program.call_sample_genotypes
+
+    class Rec(real_mcmc):
+        def fit(self, reads, read_counts=None, **kw):
+            k = cur["n"]
+            cur["n"] += 1
+            out[(cur["locus"], cur["samples"][k])] = (np.array(reads), None if read_counts is None else np.array(read_counts))
+            return real_mcmc.fit(self, reads, read_counts=read_counts, **kw)
+
+    def csg(self, data):
+        cur["locus"] = data.locus.name
+        cur["samples"] = list(data.samples)
+        cur["n"] = 0
+        return real_csg(self, data)
+
+    with Seams() as seams:
+        seams.set(call_mod, "CallingMCMC", Rec)
+        seams.set(call_mod.program, "call_sample_genotypes", csg)
+        run_program("call", argv + ["--mcmc-steps", 2, "--mcmc-burn", 0, "--mcmc-chains", 1, "--mcmc-seed", 1])
+    return out
+
+
+def run_pedigree_cli(ctx):
+    """C18 at the command line: the joint model `mchap call-pedigree` hands to its sampler - translated back to sample names -
+    is the pedigree the files describe (parents in order, gamete ploidy / ibd / error per parent-child pair, ploidy), over the
+    record's usable alleles with the input's prior, and row i of the read arrays holds sample i's own reads."""
+    import random
+    m = bootstrap_app()
+    np = m["np"]
+    from mchap.application import call_pedigree as ped_mod
+    cfg = ctx.config
+    rng = random.Random(cfg["ped_seed"])
+    with Workdir() as tmp:
+        ds = make_dataset(cfg, tmp)
+        hv = os.path.join(tmp, "haplotypes.vcf")
+        loci = write_haplotype_vcf(cfg, ds, hv)
+        by_name = {l["name"]: l for l in loci}
+        pl = cfg["ped_ploidy"]
+        names = list(ds["samples"])
+        everyone = names + (["GHOST"] if cfg["dummy_parent"] else [])
+        ploidy_file = os.path.join(tmp, "ped.ploidy")
+        with open(ploidy_file, "w") as f:
+            for s in everyone:
+                f.write("%s\t%d\n" % (s, pl))
+        age = list(everyone)
+        rng.shuffle(age)
+        parents = {}
+        for i, s in enumerate(age):
+            older = age[:i]
+            p = rng.choice(older + [None]) if older else None
+            q = rng.choice(older + [None, None]) if older else None
+            parents[s] = (p, q)
+        ped_file = os.path.join(tmp, "pedigree.txt")
+        order = list(everyone)
+        rng.shuffle(order)
+        with open(ped_file, "w") as f:
+            for s in order:
+                f.write("%s\t%s\t%s\n" % (s, parents[s][0] or ".", parents[s][1] or "."))
+        argv = ["--bam"] + ds["bam_files"] + ["--ploidy", ploidy_file, "--haplotypes", hv, "--sample-parents", ped_file]
+        if cfg["use_afp"]:
+            argv += ["--prior-frequencies", "AFP"]
+        tau = {s: (pl // 2, pl // 2) for s in everyone}
+        if cfg["tau_mode"] == "scalar":
+            argv += ["--gamete-ploidy", str(pl // 2)]
+        elif cfg["tau_mode"] == "file":
+            path = os.path.join(tmp, "tau.txt")
+            with open(path, "w") as f:
+                for s in everyone:
+                    tau[s] = rng.choice([(1, 3), (3, 1), (2, 2), (2, 2)]) if pl == 4 else (1, 1)
+                    f.write("%s\t%d\t%d\n" % (s, tau[s][0], tau[s][1]))
+            argv += ["--gamete-ploidy", path]
+        lam = {s: (0.0, 0.0) for s in everyone}
+        if cfg["lambda_mode"] == "scalar0":
+            argv += ["--gamete-ibd", "0.0"]
+        elif cfg["lambda_mode"] == "file":
+            path = os.path.join(tmp, "lambda.txt")
+            with open(path, "w") as f:
+                for s in everyone:
+                    lam[s] = tuple(rng.choice([0.0, 0.1, 0.25]) if t == 2 else 0.0 for t in tau[s])
+                    f.write("%s\t%r\t%r\n" % (s, lam[s][0], lam[s][1]))
+            argv += ["--gamete-ibd", path]
+        err = {s: (0.01, 0.01) for s in everyone}
+        if cfg["error_mode"] == "scalar":
+            v = rng.choice([0.001, 0.05, 0.2])
+            err = {s: (v, v) for s in everyone}
+            argv += ["--gamete-error", repr(v)]
+        elif cfg["error_mode"] == "file":
+            path = os.path.join(tmp, "error.txt")
+            with open(path, "w") as f:
+                for s in everyone:
+                    err[s] = (rng.choice([0.001, 0.01, 0.1]), rng.choice([0.001, 0.01, 0.3]))
+                    f.write("%s\t%r\t%r\n" % (s, err[s][0], err[s][1]))
+            argv += ["--gamete-error", path]
+
+        own_reads = _record_call_reads(m, ["--bam"] + ds["bam_files"] + ["--ploidy", ploidy_file, "--haplotypes", hv]
+                                       + (["--prior-frequencies", "AFP"] if cfg["use_afp"] else []))
+        recs = []
+        cur = {}
+        real_cls = ped_mod.PedigreeCallingMCMC
+        real_csg = ped_mod.program.call_sample_genotypes
+
+        class Rec(real_cls):
+            def fit(self, sample_reads, sample_read_counts, **kw):
+                recs.append({"locus": cur["locus"], "samples": list(cur["samples"]), "model": self,
+                             "reads": np.array(sample_reads), "counts": np.array(sample_read_counts)})
+                return real_cls.fit(self, sample_reads, sample_read_counts, **kw)
+
+        def csg(self, data):
+            cur["locus"] = data.locus.name
+            cur["samples"] = list(data.samples)
+            return real_csg(self, data)
+
+        with Seams() as seams:
+            seams.set(ped_mod, "PedigreeCallingMCMC", Rec)
+            seams.set(ped_mod.program, "call_sample_genotypes", csg)
+            out = run_program("call-pedigree", argv + ["--mcmc-steps", cfg["mcmc_steps"], "--mcmc-burn", cfg["mcmc_burn"],
+                                                        "--mcmc-chains", cfg["mcmc_chains"], "--mcmc-seed", cfg["mcmc_seed"]])
+        ctx.log.add("cli", "call-pedigree", len(recs))
+        columns, parsed = parse_vcf(out)
+        if sorted(columns) != sorted(everyone):
+            raise Violation("cli_pedigree", "output has sample columns %r; BAM samples and pedigree members are %r" % (columns, everyone), step=0)
+        usable = [l for l in loci if expected_prior(l, cfg["use_afp"]) is not None]
+        if len(recs) != len(usable):
+            raise Violation("cli_sampler_runs", "mchap call-pedigree ran its sampler %d times for %d usable records" % (len(recs), len(usable)), step=0)
+        for rec in recs:
+            l = by_name[rec["locus"]]
+            mdl = rec["model"]
+            samples = rec["samples"]
+            if samples != columns:
+                raise Violation("cli_pedigree", "sample order handed to the sampler %r differs from the output columns %r" % (samples, columns), step=0)
+            n = len(samples)
+            pos = {s: i for i, s in enumerate(samples)}
+            where = "locus %s" % rec["locus"]
+            arrs = {k: np.asarray(getattr(mdl, k)) for k in ("sample_ploidy", "sample_inbreeding", "sample_parents", "gamete_tau", "gamete_lambda", "gamete_error")}
+            if any(len(a) != n for a in arrs.values()):
+                raise Violation("cli_pedigree", "pedigree arrays do not have one row per sample (%s)" % where, step=0)
+            for s in samples:
+                i = pos[s]
+                got_par = tuple(None if int(x) < 0 else samples[int(x)] for x in arrs["sample_parents"][i])
+                if int(arrs["sample_ploidy"][i]) != pl or float(arrs["sample_inbreeding"][i]) != 0.0:
+                    raise Violation("cli_pedigree", "sample %s modelled with ploidy %r / inbreeding %r (%s)" % (s, arrs["sample_ploidy"][i], arrs["sample_inbreeding"][i], where), step=0)
+                # a parent-child pair is (parent, tau, lambda, error) in the column order of the pedigree file
+                got = [(got_par[j], int(arrs["gamete_tau"][i][j]), float(arrs["gamete_lambda"][i][j]), float(arrs["gamete_error"][i][j])) for j in (0, 1)]
+                want = [(parents[s][j], tau[s][j], lam[s][j], err[s][j]) for j in (0, 1)]
+                if got != want:
+                    raise Violation("cli_pedigree", "sample %s: the sampler is told (parent, gamete ploidy, ibd, error) = %r; the files say %r (%s)" % (s, got, want, where), step=0,
+                                    detail={"sample": s, "got": got, "want": want})
+                # row i holds sample i's own reads
+                reads_i, counts_i = rec["reads"][i], rec["counts"][i]
+                own = own_reads.get((rec["locus"], s)) if s in names else None
+                k = 0 if own is None else len(own[0])
+                own_counts = np.ones(k, int) if own is None or own[1] is None else own[1]
+                ok = int(np.sum(counts_i[k:])) == 0 and np.array_equal(counts_i[:k], own_counts)
+                if ok and k:
+                    a, b = reads_i[:k], own[0]
+                    ok = a.shape == b.shape and np.array_equal(np.isnan(a), np.isnan(b)) and np.array_equal(np.nan_to_num(a), np.nan_to_num(b))
+                if not ok:
+                    raise Violation("cli_pedigree", "row %d of the read arrays is not sample %s's own reads (%s)" % (i, s, where), step=0)
+            # alleles and prior
+            rows_expected = encode_sequences(l["seqs"])
+            lookup = {r: i for i, r in enumerate(rows_expected)}
+            want_prior = expected_prior(l, cfg["use_afp"])
+            haps = [tuple(int(a) for a in h) for h in np.asarray(mdl.haplotypes)]
+            fr = [1.0 / len(haps)] * len(haps) if mdl.frequencies is None else [float(x) for x in mdl.frequencies]
+            if len(fr) != len(haps) or any(h not in lookup for h in haps):
+                raise Violation("cli_target", "haplotypes / frequencies handed to the pedigree sampler do not match the input record (%s)" % where, step=0)
+            got_prior = {}
+            for h, x in zip(haps, fr):
+                if x > 0:
+                    got_prior[lookup[h]] = got_prior.get(lookup[h], 0.0) + x
+            tot = sum(got_prior.values())
+            if set(got_prior) != set(want_prior) or any(abs(got_prior[a] / tot - want_prior[a]) > 1e-9 for a in want_prior):
+                raise Violation("cli_target", "prior over the record's alleles handed to the pedigree sampler is %r; the input defines %r (%s)" % (got_prior, want_prior, where), step=0)
+            if int(mdl.steps) != cfg["mcmc_steps"] or int(mdl.chains) != cfg["mcmc_chains"] or mdl.random_seed != cfg["mcmc_seed"]:
+                raise Violation("cli_target", "call-pedigree runs steps/chains/seed %r/%r/%r (%s)" % (mdl.steps, mdl.chains, mdl.random_seed, where), step=0)
+            ctx.counters.inc("cli_pedigrees_checked")
+            if cfg["dummy_parent"]:
+                ctx.counters.inc("cli_unsequenced_member")
+        ctx.key("cli-ped", pl, tuple(sorted((s, parents[s]) for s in everyone)), cfg["tau_mode"], cfg["lambda_mode"], cfg["error_mode"])
